@@ -181,3 +181,15 @@ Proof.
   - assert (X : is_plain (store_item v) = true) by now rewrite E. apply kept_iff_faithful in X. congruence.
   - unfold store_item in E. destruct (roundtrippable v); congruence.
 Qed.
+
+(* ---------- extension: custom_objects ---------- *)
+Lemma custom_objects_spec d custom :
+  json_to_data_custom (data_to_json d) custom
+  = map (fun kv => (fst kv, match lookup_custom (fst kv) custom with Some v => v | None => snd kv end)) d.
+Proof.
+  unfold json_to_data_custom, data_to_json. rewrite map_map. apply map_ext. intros [k v]. cbn [fst snd].
+  destruct (lookup_custom k custom); [reflexivity|]. now rewrite load_store_item.
+Qed.
+
+Lemma custom_objects_none d : json_to_data_custom (data_to_json d) [] = d.
+Proof. rewrite custom_objects_spec. cbn [lookup_custom]. induction d as [|[k v] d IH]; [reflexivity|]. cbn [map fst snd]. now rewrite IH. Qed.
